@@ -86,6 +86,7 @@ static void sec_gravity(Ctx& c, uint64_t idx) {
   em.height_offset = r.coin(0.4) ? -0.41 : r.uniform(-10, 10); em.write_height_offset = r.coin(0.8); if (!em.write_height_offset) em.height_offset = 0;
   em.corr_mult = r.coin(0.5) ? 1.0 : r.coin() ? 0.01 : r.uniform(0.1, 10); em.write_corr_mult = r.coin(0.8); if (!em.write_corr_mult) em.corr_mult = 1;
   em.id = "SYNG" + std::to_string(1000 + idx % 9000);
+  if (r.coin(0.15)) em.signature_suffix = r.coin() ? " synthetic" : "\ttrailing text 123";      // the reader stops at the first blank after the version
   G.a = em.ref_radius; G.GMr = em.ref_mass; G.GMm = em.model_mass; G.am = em.model_radius; G.om = em.omega;
   ref::NormalGravityRef ng(G.a, G.GMr, G.om, G.f);
   // gravity coefficients: noise + (mostly) zonal terms close to those of the reference ellipsoid, as in real models
@@ -284,6 +285,17 @@ static void sec_gravity(Ctx& c, uint64_t idx) {
           va = gc.Disturbance(lo, a1, a2, a3); vb = M->Disturbance(lat, lo, h, b1, b2, b3); if (G.GMm != G.GMr) vb = M->T(Xl, Yl, Zl); rel(va, vb, R.sT, R.allowV); rel(a1, b1, R.sD, R.allowG); rel(a2, b2, R.sD, R.allowG); rel(a3, b3, R.sD, R.allowG);
           va = gc.T(lo, a1, a2, a3); vb = M->T(Xl, Yl, Zl, b1, b2, b3); if (G.GMm != G.GMr) vb = M->T(Xl, Yl, Zl); rel(va, vb, R.sT, R.allowV); rel(a1, b1, R.sD, R.allowG); rel(a2, b2, R.sD, R.allowG); rel(a3, b3, R.sD, R.allowG);
         }
+        else {      // documented: NaN for a circle created without the capability (paths shown as never executed by the reach monitor)
+          a1 = a2 = a3 = 0; va = gc.Disturbance(lo, a1, a2, a3);
+          if (!(std::isnan(va) && std::isnan(a1) && std::isnan(a2) && std::isnan(a3))) c.viol("oracle:C19/gravitycircle/value-without-capability", cls, J(wit).str("what", "Disturbance"));
+          a1 = a2 = a3 = 0; va = gc.T(lo, a1, a2, a3);
+          if (!(std::isnan(va) && std::isnan(a1) && std::isnan(a2) && std::isnan(a3))) c.viol("oracle:C19/gravitycircle/value-without-capability", cls, J(wit).str("what", "T-with-gradient"));
+        }
+        if (!gc.Capabilities(GravityModel::SPHERICAL_ANOMALY)) {
+          a1 = a2 = a3 = 0; gc.SphericalAnomaly(lo, a1, a2, a3);
+          if (!(std::isnan(a1) && std::isnan(a2) && std::isnan(a3))) c.viol("oracle:C19/gravitycircle/value-without-capability", cls, J(wit).str("what", "SphericalAnomaly"));
+        }
+        if (!gc.Capabilities(GravityModel::GEOID_HEIGHT) && !std::isnan(gc.GeoidHeight(lo))) c.viol("oracle:C19/gravitycircle/value-without-capability", cls, J(wit).str("what", "GeoidHeight"));
         if (gc.Capabilities(GravityModel::DISTURBING_POTENTIAL)) { va = gc.T(lo); vb = M->T(Xl, Yl, Zl); rel(va, vb, R.sT, R.allowV); }
         else if (!std::isnan(gc.T(lo))) c.viol("oracle:C19/gravitycircle/value-without-capability", cls, J(wit).str("what", "T"));
         if (gc.Capabilities(GravityModel::SPHERICAL_ANOMALY)) {
